@@ -133,3 +133,55 @@ Theorem C03_wavesim_model_example : forall reuse strip actrl n tcap,
                  (wexec (dl_of KV.Proofs.WaveSimGlue.WaveGlueExample.dls) (lcap 6 (repeat 8%N 6)) (build_ops KV.Proofs.WaveStrip.StripWaveExample.cxw false)
                         (wenv0 KV.Proofs.WaveStrip.StripWaveExample.cxw KV.Proofs.WaveSimGlue.WaveGlueExample.ss KV.Proofs.WaveSimGlue.WaveGlueExample.ex)) tcap.
 Proof. exact KV.Proofs.WaveSimGlue.WaveGlueExample.cxw_by_theorem. Qed.
+
+(** SOURCE TIE of the waveform merge kernel.  Gen/WaveEvalSrc.v is regenerated on every run from the CURRENT text of
+    wave_sim._wave_eval by translate/gen_wave_eval.py (a fail-closed syntax-directed translator: statement by statement over one
+    record of the kernel's locals, Python ints as Z, the while loop as fuel recursion, memory as the regions of the output and
+    of the four operands).  [res_of] reads off what the caller observes (output region, returned (nrise, nfall), overflow
+    count).  The hand-written model [wave_eval] -- the subject of every theorem above and of C04 / C05 / C13 -- is what the
+    source computes, for ALL lookup tables, operand regions, delay tables and output regions of capacity >= 2 (SimOps
+    allocates >= 4), and for every bound on the number of loop iterations. *)
+From KV Require Import Model.WaveSrcPrelude Gen.WaveEvalSrc.
+From KV Require Proofs.WaveEvalSrcProofs.
+Theorem C03_kernel_source_is_model : forall lut ws ds zreg, 2 <= length zreg ->
+  KV.Proofs.WaveEvalSrcProofs.res_of
+    (WaveEvalSrc.wave_eval_src (KV.Proofs.WaveEvalSrcProofs.model_fuel ws) (Z.of_N lut) ws ds zreg) = wave_eval lut ws ds zreg.
+Proof. exact KV.Proofs.WaveEvalSrcProofs.kernel_source_is_model. Qed.
+
+Theorem C03_kernel_source_any_bound : forall fuel lut ws ds zreg, 2 <= length zreg ->
+  KV.Proofs.WaveEvalSrcProofs.res_of (WaveEvalSrc.wave_eval_src fuel (Z.of_N lut) ws ds zreg) =
+  KV.Proofs.WaveEvalSrcProofs.wave_eval_f fuel lut ws ds zreg.
+Proof. exact KV.Proofs.WaveEvalSrcProofs.wave_eval_src_sim. Qed.
+
+Theorem C03_kernel_source_example :
+  KV.Proofs.WaveEvalSrcProofs.res_of
+    (WaveEvalSrc.wave_eval_src (KV.Proofs.WaveEvalSrcProofs.model_fuel KV.Proofs.WaveEvalSrcProofs.ex_ws) 6
+       KV.Proofs.WaveEvalSrcProofs.ex_ws KV.Proofs.WaveEvalSrcProofs.ex_ds (repeat MaxInf 4)) =
+    Some {| r_z := [MinInf; Fin 6; MaxOvl; MaxInf]; r_rise := 0; r_fall := 1; r_ovf := 1 |} /\
+  KV.Proofs.WaveEvalSrcProofs.res_of
+    (WaveEvalSrc.wave_eval_src (KV.Proofs.WaveEvalSrcProofs.model_fuel KV.Proofs.WaveEvalSrcProofs.ex_ws) 6
+       KV.Proofs.WaveEvalSrcProofs.ex_ws KV.Proofs.WaveEvalSrcProofs.ex_ds (repeat MaxInf 8)) =
+    Some {| r_z := [MinInf; Fin 6; Fin 8; Fin 11; MaxInf; MaxInf; MaxInf; MaxInf]; r_rise := 1; r_fall := 2; r_ovf := 0 |}.
+Proof. exact KV.Proofs.WaveEvalSrcProofs.kernel_source_example. Qed.
+
+(* the capacity hypothesis is needed: at capacity 1 the source (like the real kernel) leaves its region *)
+Theorem C03_kernel_source_cap1_differs :
+  KV.Proofs.WaveEvalSrcProofs.res_of
+    (WaveEvalSrc.wave_eval_src (KV.Proofs.WaveEvalSrcProofs.model_fuel KV.Proofs.WaveEvalSrcProofs.ex_ws) 7
+       KV.Proofs.WaveEvalSrcProofs.ex_ws KV.Proofs.WaveEvalSrcProofs.ex_ds [MaxInf]) <>
+  wave_eval 7 KV.Proofs.WaveEvalSrcProofs.ex_ws KV.Proofs.WaveEvalSrcProofs.ex_ds [MaxInf].
+Proof. exact KV.Proofs.WaveEvalSrcProofs.kernel_source_cap1_differs. Qed.
+
+(* ... hence the per-gate theorems hold of the translated source: it terminates on well-formed arguments, and what it stores
+   is a well-formed waveform that starts / ends at the LUT value of the operands' initial / final values *)
+From KV Require Proofs.WaveEvalSrcCorollaries.
+Theorem C03_source_total : forall lut ws ds zreg, wf_args ws ds zreg ->
+  exists s nr nf, WaveEvalSrc.wave_eval_src (KV.Proofs.WaveEvalSrcProofs.model_fuel ws) (Z.of_N lut) ws ds zreg = Some (s, (nr, nf)).
+Proof. exact KV.Proofs.WaveEvalSrcCorollaries.src_total. Qed.
+
+Theorem C03_source_settles : forall lut ws ds zreg s nr nf, wf_args ws ds zreg ->
+  WaveEvalSrc.wave_eval_src (KV.Proofs.WaveEvalSrcProofs.model_fuel ws) (Z.of_N lut) ws ds zreg = Some (s, (nr, nf)) ->
+  let z := KV.Proofs.WaveEvalSrcCorollaries.src_z s in
+  wf_wave z /\ length z = length zreg /\
+  init_val z = lut_at lut (map init_val ws) /\ final_val z = lut_at lut (map final_val ws).
+Proof. exact KV.Proofs.WaveEvalSrcCorollaries.src_settles. Qed.
